@@ -2760,6 +2760,11 @@ pub const FUNCS: &[(&str, &str, &str)] = &[
     ("lib", "", "compute_initial_info"),
     ("lib", "", "visual_runs_for_line"),
     ("lib", "", "reorder_visual"),
+    ("lib", "ParagraphBidiInfo", "has_rtl"),
+    ("lib", "ParagraphBidiInfo", "direction"),
+    ("lib", "BidiInfo", "has_rtl"),
+    ("lib", "BidiInfo", "reorder_visual"),
+    ("lib", "ParagraphBidiInfo", "reorder_visual"),
 ];
 
 pub fn translate_all(repo: &Path, report: &mut Report) -> String {
@@ -3009,6 +3014,10 @@ fn translate_fn(
         ps.push_str(&format!(" (self_ : {})", ty_coq(&f.self_ty)));
     }
     for (n, t, _) in &f.params {
+        // a field of `self` the method never mentions is not a parameter of the translation
+        if is_struct && n.starts_with("self_") && !mentions(&body, &coq_ident(n)) {
+            continue;
+        }
         let ct = match t {
             Ty::U8 | Ty::Word | Ty::Level => "nat".to_string(),
             Ty::Char => "N".to_string(),
